@@ -21,6 +21,11 @@ CHECKS = {
                      "passes the same patterns and its result is merged under its own keys, the per-file result is pushed under the pattern that produced it. "
                      "Decides the merge discipline for all trees and listing orders; does not model what read_dir lists.",
                 note=_MIR + "; HashMap::entry/Vec::push/append semantics"),
+    "C04": dict(level="other", design_ref="5/C04", technique="enumeration of panic-capable MIR sites over the call graph from analyze_for_*, each discharged by a dominating-guard rule, a node-kind reachability argument, an arithmetic range rule or a keyed justification; loop/recursion termination rules (static analysis)",
+                text="Every unwrap/expect/index/diverging call and every overflow/bounds/division assert reachable from the three per-file entry points is enumerated "
+                     "(152 today) and must be discharged; loops must be finite-iterator or strictly descending cursor loops; recursion only in the walker on strict "
+                     "sub-terms. Decides absence of local panics for all accepted files; panics inside dependencies and stack depth are not decided.",
+                note=_MIR + "; specs/c04_justified.json (9 reasoned entries with mechanical side conditions); dependencies total on valid arguments"),
     "C09": dict(level="other", design_ref="5/C09", technique="gate formulas extracted from MIR guards, evaluated as formulas over the version triple against the lexicographic spec on a finite grid; guard analysis of the pragma selection (static analysis)",
                 text="Decides each gate as a boolean formula over (major, minor, patch) — exactly on the partition the constants induce (quick) and on the whole grid "
                      "0.0.0..2.12.41 (thorough) — complementarity of pre/post, that only a directive named solidity yields a version, and that no version means no report. "
